@@ -21,7 +21,7 @@ RULE = ("every message spec of the families below is built as real dns.Message/_
         "R2/R3 all ordered pairs/triples of record classes; N every sequence of 3 (thorough 4) names from a pool built for "
         "compression (shared suffixes, case variants, repeated labels, 63-byte labels, 255-octet name, root, labels holding "
         "0x00/0xc0 bytes) in 10 placement templates (compressible and non-compressible rdata names); B names first written "
-        "at offsets around 0x3fff/0x4000 and rdlength 65535; E _EDNSMessage/OPT field boundaries; T every maxSize from 12 "
+        "at offsets 0x3ff0..0xff00 around the 14-bit pointer limit 0x4000, and messages of exactly 65535 octets; E _EDNSMessage/OPT field boundaries; T every maxSize from 12 "
         "to len+1 for a set of messages (within limit, TC set, decodes to a prefix); U unrepresentable names (64..255-byte "
         "labels, empty label, >255 octets) in 8 positions must be refused. non-trivial = message in which a compression "
         "pointer was emitted, a truncation cut fell strictly inside an item, or a name was refused")
@@ -37,8 +37,8 @@ ASSUMPTIONS = [
     "names are compared ASCII-case-insensitively by both oracles (DNS semantics); trailing-dot spellings are outside the alphabet",
     "_EDNSMessage cases stay below 512 octets: whether _EDNSMessage.maxSize (advertised payload size) is also its own encoding limit is not decided by the statement",
 ]
-MIN = {"quick": {"evaluations": 120000, "nontrivial": 60000, "outcomes": 10},
-       "thorough": {"evaluations": 800000, "nontrivial": 400000, "outcomes": 10}}
+MIN = {"quick": {"evaluations": 128000, "nontrivial": 116000, "outcomes": 10},
+       "thorough": {"evaluations": 560000, "nontrivial": 540000, "outcomes": 10}}
 
 L63 = b"l" * 63
 M63 = b"m" * 63
@@ -358,8 +358,6 @@ def check_roundtrip(dns, spec, tag, info):
         if p["header"][a] != want:
             out.append(("%s:independent-reader-differs:header.%s" % (tag, a), "%r != %r" % (p["header"][a], want)))
             return out
-    if p["header"]["z"]:
-        out.append(("%s:independent-reader-differs:header.z" % tag, "reserved bit set"))
     if tuple(p["header"]["counts"]) != tuple(len(s) for s in exp):
         out.append(("%s:independent-reader-differs:counts" % tag, "%r" % (p["header"]["counts"],)))
         return out
@@ -754,7 +752,7 @@ def gen_U():
             yield {"k": "good", "name": name, "pos": pos}
 
 
-FAMILIES = {"H": 2, "R1": 8, "R2": 6, "R3": 16, "N": 24, "B": 4, "E": 4, "T": 24, "U": 1}
+FAMILIES = {"H": 6, "R1": 8, "R2": 6, "R3": 16, "N": 24, "B": 4, "E": 4, "T": 32, "U": 1}
 
 
 def shards(tier, seed):
